@@ -222,9 +222,9 @@ Qed.
 Definition probe_ok (s : wstate) (o : op) (r : res) : Prop :=
   match r with RBool b => match wprobe s o with Some b' => b = b' | None => True end | _ => True end.
 
-Lemma wapply_effect s o r s' : wapply s o r = Some s' -> probe_ok s o r -> effect s o r s'.
+Lemma wapply_effect s o r s' : wf (wfs s) -> wapply s o r = Some s' -> probe_ok s o r -> effect s o r s'.
 Proof.
-  intros H Hp. destruct o; simpl in H |- *.
+  intros Hwf H Hp. destruct o; simpl in H |- *.
   all: try solve [destruct r; inversion H; subst; apply same_refl].
   - (* Lexists *) destruct r; inversion H; subst; try apply same_refl. split; [apply same_refl|exact Hp].
   - (* Exists *) destruct r; inversion H; subst; try apply same_refl. split; [apply same_refl|].
@@ -244,13 +244,20 @@ Proof.
   - (* CloseFd *) inversion H; subst. simpl. auto.
   - (* Move *) destruct r; inversion H; subst; try apply same_refl.
     destruct (wfs s src) eqn:Es; [|discriminate]. destruct (wfs s dst) eqn:Ed; [discriminate|].
-    destruct (under src dst) eqn:Eu; [discriminate|]. destruct (under dst src) eqn:Eu'; [discriminate|]. inversion H; subst. simpl.
+    destruct (under src dst) eqn:Eu; [discriminate|]. destruct (under dst src) eqn:Eu'; [discriminate|].
+    destruct (str_eqb dst []) eqn:Ee; [discriminate|]. inversion H; subst. simpl.
     assert (Hno : forall q, under dst q = true -> under src q = false).
     { intros q Hq. destruct (under src q) eqn:E; [|reflexivity]. destruct (under_both _ _ _ E Hq); congruence. }
-    split; [congruence|]. split; [reflexivity|]. split; [reflexivity|]. split; [|split].
+    split; [congruence|]. split; [reflexivity|]. split; [reflexivity|]. split; [|split; [|split]].
     + intros q Hq. unfold mv_tree. destruct (strip dst q) eqn:E; [|rewrite Hq; reflexivity].
       rewrite Hno in Hq; [discriminate|unfold under; rewrite E; reflexivity].
     + intros q Hs Hd. unfold mv_tree. unfold under in Hd. destruct (strip dst q); [discriminate|]. rewrite Hs. reflexivity.
+    + intros q Hs Hne Hex. unfold mv_tree. destruct (strip dst q) eqn:E; [|rewrite Hs; reflexivity].
+      (* q is strictly below dst and exists: then dst would be a directory (wf), but it does not exist *)
+      exfalso. assert (Hb : below dst q = true).
+      { unfold below, under. rewrite E. simpl. apply negb_true_iff. apply str_eqb_neq. exact Hne. }
+      assert (Hd : dst <> []) by (apply str_eqb_false; exact Ee).
+      rewrite (Hwf q dst Hex Hb Hd) in Ed. discriminate.
     + reflexivity.
   - (* Remove *) destruct r; inversion H; subst; try apply same_refl.
     destruct (wfs s p) as [[c| |]|] eqn:Ep; try discriminate; inversion H; subst; simpl.
